@@ -19,6 +19,7 @@ type Result struct {
 	Secs   float64
 	Output string
 	VC     *VC
+	RelaxedSat bool
 }
 
 type solveOpts struct {
@@ -60,7 +61,11 @@ var solvers = []solverSpec{
 }
 
 func runSolver(s solverSpec, file string, ms int, hard time.Duration) (string, float64) {
-	ctx, cancel := context.WithTimeout(context.Background(), hard)
+	return runSolverCtx(context.Background(), s, file, ms, hard)
+}
+
+func runSolverCtx(parent context.Context, s solverSpec, file string, ms int, hard time.Duration) (string, float64) {
+	ctx, cancel := context.WithTimeout(parent, hard)
 	defer cancel()
 	a := s.args(file, ms)
 	cmd := exec.CommandContext(ctx, a[0], a[1:]...)
@@ -80,7 +85,7 @@ func solveVC(vc *VC, o solveOpts) []*Result {
 		return nil
 	}
 	file := tmpFile(shortFuncName(vc.root.String()))
-	script := vc.script(o.timeoutMs)
+	script := vc.script(true) // pass 1: quantified hypotheses dropped (sound weakening)
 	os.WriteFile(file, []byte(script), 0o644)
 	hard := time.Duration(len(obs)*o.timeoutMs+20000) * time.Millisecond
 	out, secs := runSolver(solvers[0], file, o.timeoutMs, hard)
@@ -101,19 +106,29 @@ func solveVC(vc *VC, o solveOpts) []*Result {
 	}
 	var errLines []string
 	for _, l := range lines {
-		if strings.Contains(l, "error") {
+		if strings.Contains(l, "(error") {
 			errLines = append(errLines, l)
 		}
 	}
 	results := make([]*Result, len(obs))
 	var pending []int
+	if len(errLines) > 0 {
+		// a malformed script decides nothing
+		status = map[string]string{}
+	}
 	for i, ob := range obs {
-		r := &Result{Ob: ob, Solver: "z3-new", Secs: secs / float64(len(obs)), VC: vc}
+		r := &Result{Ob: ob, Solver: "z3-new/qf", Secs: secs / float64(len(obs)), VC: vc}
+		if and(ob.Reach, not(ob.Goal)) == tFalse {
+			r.Status, r.Solver, r.Secs = "unsat", "simplifier", 0
+			results[i] = r
+			continue
+		}
 		switch status[ob.Name] {
 		case "unsat":
 			r.Status = "unsat"
 		case "sat":
 			r.Status = "sat"
+			r.RelaxedSat = true
 		case "unknown":
 			r.Status = "unknown"
 		default:
@@ -149,7 +164,7 @@ func solveVC(vc *VC, o solveOpts) []*Result {
 // raceOne runs a standalone query for the obligation on all solvers.
 func raceOne(vc *VC, r *Result, o solveOpts) {
 	file := tmpFile("ob-" + r.Ob.Name)
-	os.WriteFile(file, []byte(vc.standalone(r.Ob, false, nil)), 0o644)
+	os.WriteFile(file, []byte(vc.standalone(r.Ob, false, nil)), 0o644) // full hypotheses
 	defer os.Remove(file)
 	type ans struct {
 		solver string
@@ -158,10 +173,13 @@ func raceOne(vc *VC, r *Result, o solveOpts) {
 		out    string
 	}
 	ch := make(chan ans, len(solvers))
-	ms := o.timeoutMs * 3
+	r.Status, r.Solver = "unknown", "all"
+	ms := o.timeoutMs
+	ctx, cancel := context.WithCancel(context.Background())
+	defer cancel()
 	for _, s := range solvers {
 		go func(s solverSpec) {
-			out, secs := runSolver(s, file, ms, time.Duration(ms+5000)*time.Millisecond)
+			out, secs := runSolverCtx(ctx, s, file, ms, time.Duration(ms+5000)*time.Millisecond)
 			first := ""
 			for _, l := range strings.Split(out, "\n") {
 				l = strings.TrimSpace(l)
@@ -176,19 +194,18 @@ func raceOne(vc *VC, r *Result, o solveOpts) {
 			ch <- ans{s.name, first, secs, out}
 		}(s)
 	}
-	var sat *ans
 	for range solvers {
 		a := <-ch
 		if a.status == "unsat" {
 			r.Status, r.Solver, r.Secs = "unsat", a.solver, a.secs
 			return
 		}
-		if a.status == "sat" && sat == nil {
-			aa := a
-			sat = &aa
+		if a.status == "sat" {
+			r.Status, r.Solver, r.Secs = "sat", a.solver, a.secs
+			return
 		}
-		if r.Status == "error" && a.status != "error" {
-			r.Status, r.Solver, r.Secs = a.status, a.solver, a.secs
+		if a.secs > r.Secs {
+			r.Secs = a.secs
 		}
 		if a.status == "error" && r.Output == "" {
 			r.Output = a.out
@@ -196,8 +213,5 @@ func raceOne(vc *VC, r *Result, o solveOpts) {
 				r.Output = r.Output[:2000]
 			}
 		}
-	}
-	if sat != nil {
-		r.Status, r.Solver, r.Secs = "sat", sat.solver, sat.secs
 	}
 }
